@@ -61,6 +61,8 @@ def check_step_loop(ctx):
     detail = "-"
     if sw:
         d = cfg.chase(f, sw[1]["discr"])
+        if d[0] == "call":
+            d = _compare_behind_new_helper(ctx, d)
         if d[0] == "rv" and d[1]["k"] == "binop" and d[1]["op"] in ("Lt", "Gt", "Le", "Ge", "Ne"):
             a, b = d[1]["a"], d[1]["b"]
             ca, cb = cfg.chase(f, a), cfg.chase(f, b)
@@ -125,6 +127,23 @@ def check_step_loop(ctx):
     for bi, t in f.calls():
         if path_ends(t.get("fn") or "", "State::perform") or path_ends(t.get("fn") or "", "Instruction::perform"):
             ctx.check(bi in body, "R03.1", "perform-only-inside-the-counted-loop/bb%d" % bi, "bb%d in loop body" % bi, f.at())
+
+
+def _compare_behind_new_helper(ctx, d):
+    """`while helper(counter, limit)` where helper is a function unknown to the rule base whose only path returns
+    one comparison of two of its parameters: hand back that comparison over the call's own operands"""
+    t = d[1]
+    fid = (t.get("res") or {}).get("def") or t.get("fn")
+    if not fid or not ctx.F.is_new_fn(fid):
+        return d
+    qs = ctx.F.inline_paths(fid, 0)
+    rets = [q for q in (qs or []) if q.end == "return"]
+    if len(rets) != 1 or len(qs) != 1 or rets[0].conds:
+        return d
+    r = rets[0].ret
+    if r[0] == "binop" and r[2][0] == "param" and r[3][0] == "param" and r[2][1] <= len(t["args"]) and r[3][1] <= len(t["args"]):
+        return ("rv", {"k": "binop", "op": r[1], "a": t["args"][r[2][1] - 1], "b": t["args"][r[3][1] - 1]})
+    return d
 
 
 def check(ctx):
